@@ -96,6 +96,15 @@ PROPS = {
         required="faithful",
         nontrivial="the real builder's tree has a stage with two groups and a forced sequencing; really dispatched",
     ),
+    "C10": dict(
+        domain="conc", module="Props.C10",
+        theorems=["C10_handles_distinct", "C10_alive_from_return", "C10_delete_check_passes", "C10_delete_of_live_ok",
+                  "C10_delete_recorded", "C10_final_state_sequential", "C10_final_state_refines",
+                  "C10_results_linearisable",
+                  "C10_queue_interleaving", "C10_never_stuck", "C10_programs_in_order", "C10_after_any_history"],
+        required="faithful",
+        nontrivial="an enumerated schedule in which at least one compare-exchange failed and was retried",
+    ),
 }
 
 # ------------------------------------------------------------------ known findings
@@ -581,6 +590,9 @@ def run_check(pid, tier, seed):
     if dom == "dispatch":
         from . import dispatch_check
         return dispatch_check.check_dispatch(pid, tier, seed)
+    if dom == "conc":
+        from . import conc_check
+        return conc_check.check_conc(pid, tier, seed, PROPS, proof_obligations, TRUSTED_COMMON)
     raise SystemExit("unknown domain")
 
 
@@ -593,6 +605,9 @@ def replay(path):
     if obj.get("domain") == "dispatch":
         from . import dispatch_check
         return dispatch_check.replay(obj, path)
+    if obj.get("domain") == "conc":
+        from . import conc_check
+        return conc_check.replay_conc(path, obj)
     if "encoded" not in obj:
         print(json.dumps(obj, indent=1))
         return 1
